@@ -8,6 +8,19 @@
 //! the model's schedule; the observation is, per event, (count, discriminant, status of the
 //! stepped thread, hand-out (id, generation it was built for, item tag) / time-out).
 //!
+//! Callbacks are scheduling points too.  The pooled value belongs to the harness (`Hooked<T>`), and
+//! the pool calls back into it: `Reset::reset` (give_back_resource, reset_available_resources) and
+//! `Drop::drop` (resources drained by clear / clear_and_increment_discriminant, resources that
+//! give_back_resource does not push).  Both callbacks park the calling worker.  The controller then
+//! MEASURES whether a pool lock is held around the callback: two prober threads call
+//! `pool.count()` (queue lock) and `pool.discriminant()` (discriminant lock) and the controller
+//! looks at whether they return or go to sleep on the mutex (thread state in /proc).  A callback
+//! under a lock is part of the critical section (the worker is released at once, the callback and
+//! the locks seen are part of the observation); a callback with no lock held is an interleaving
+//! point: the worker stays parked there and every other thread can run whole operations.  The
+//! model predicts both (Model.step_cbs), so a refactoring that moves a callback out of (or into)
+//! a critical section disagrees with the model, and the schedules walk through the window.
+//!
 //! The `holds` oracle uses provenance only (each resource carries the generation it was built
 //! for; the controller knows which refreshes have drained the pool): no superseded resource is
 //! handed out, the queue never grows beyond `size`, a blocked acquirer is woken by a push.
@@ -108,6 +121,38 @@ impl Pooled for MkMap {
     }
 }
 
+/// The pooled value actually put in the pool: `T` with the two callbacks the pool makes into a
+/// pooled value (`Reset::reset`, `Drop::drop`) turned into scheduling points.
+struct Hooked<T: Pooled> {
+    id: u64,
+    inner: T,
+}
+impl<T: Pooled> Reset for Hooked<T> {
+    fn reset(&mut self) -> anyhow::Result<()> {
+        callback(0, self.id);
+        self.inner.reset()
+    }
+}
+impl<T: Pooled> Drop for Hooked<T> {
+    fn drop(&mut self) {
+        callback(1, self.id);
+    }
+}
+impl<T: Pooled> Pooled for Hooked<T> {
+    fn make(id: u64, generation: u64) -> Self {
+        Hooked { id, inner: T::make(id, generation) }
+    }
+    fn provenance(&self) -> (u64, u64) {
+        self.inner.provenance()
+    }
+    fn touch(&mut self) {
+        self.inner.touch()
+    }
+    fn is_dirty(&self) -> bool {
+        self.inner.is_dirty()
+    }
+}
+
 // ---------------------------------------------------------------------------------- scheduler
 
 #[derive(Clone, Copy, PartialEq, Debug)]
@@ -115,6 +160,7 @@ enum St {
     Idle,    // no operation in progress
     Running, // executing (between two yield points)
     Parked,  // stopped at a yield point, mid-operation
+    ParkedCb, // stopped inside a callback of the pooled value (reset / drop), mid-operation
     Waiting, // blocked in the pool's condvar
 }
 
@@ -132,6 +178,8 @@ struct W {
     holding: bool,
     outcome: Outcome,
     drained: Option<u64>, // generation whose drain (discriminant change + clear) this worker completed
+    cb: Option<(u8, u64)>, // the callback the worker is parked in: (0 reset / 1 drop, resource id)
+    param: Option<u64>,    // concrete argument of the operation just started (give_back_resource / set_discriminant)
 }
 
 struct Ctl {
@@ -176,6 +224,126 @@ fn sched(label: &'static str) {
     })
 }
 
+/// Called by the pooled value from `Reset::reset` / `Drop::drop`: parks the calling worker.
+fn callback(kind: u8, id: u64) {
+    let _ = ME.try_with(|me| {
+        let Ok(me) = me.try_borrow() else { return };
+        let Some((i, ctl)) = me.as_ref() else { return };
+        let i = *i;
+        if ctl.free.load(Ordering::SeqCst) {
+            return;
+        }
+        let mut g = ctl.m.lock().unwrap();
+        g[i].st = St::ParkedCb;
+        g[i].cb = Some((kind, id));
+        ctl.cv.notify_all();
+        while !g[i].grant && !ctl.free.load(Ordering::SeqCst) {
+            g = ctl.cv.wait(g).unwrap();
+        }
+        g[i].grant = false;
+        g[i].cb = None;
+        g[i].st = St::Running;
+    });
+}
+
+// ---------------------------------------------------------------------------------- lock probes
+
+/// A thread that, on request, calls one pool operation that takes one pool lock and nothing else
+/// (`count()`: the queue lock; `discriminant()`: the discriminant lock).  The controller decides
+/// whether the lock is held by somebody else from what happens to the call: it returns (free), or
+/// the thread goes to sleep inside it (state `S` in /proc: between `entered` and `done` the only
+/// place where the thread can sleep is the pool mutex).
+struct Probe {
+    m: Mutex<(u64, bool)>, // (request number, stop)
+    cv: Condvar,
+    entered: AtomicU64,
+    done: AtomicU64,
+    tid: AtomicU64,
+}
+impl Probe {
+    fn new() -> Arc<Probe> {
+        Arc::new(Probe { m: Mutex::new((0, false)), cv: Condvar::new(), entered: AtomicU64::new(0), done: AtomicU64::new(0), tid: AtomicU64::new(0) })
+    }
+    fn serve(&self, call: impl Fn()) {
+        let tid = std::fs::read_link("/proc/thread-self")
+            .ok()
+            .and_then(|p| p.file_name().and_then(|f| f.to_str().and_then(|f| f.parse::<u64>().ok())))
+            .unwrap_or(0);
+        self.tid.store(tid, Ordering::SeqCst);
+        let mut seen = 0u64;
+        loop {
+            {
+                let mut g = self.m.lock().unwrap();
+                while g.0 == seen && !g.1 {
+                    g = self.cv.wait(g).unwrap();
+                }
+                if g.1 {
+                    return;
+                }
+                seen = g.0;
+            }
+            self.entered.store(seen, Ordering::SeqCst);
+            call();
+            self.done.store(seen, Ordering::SeqCst);
+        }
+    }
+    fn request(&self) -> u64 {
+        let mut g = self.m.lock().unwrap();
+        if self.done.load(Ordering::SeqCst) != g.0 {
+            // the previous call is still in progress (it found the lock taken and the worker that
+            // holds it has stopped again): what happens to that call is the answer
+            return g.0;
+        }
+        g.0 += 1;
+        self.cv.notify_all();
+        g.0
+    }
+    fn sleeping(&self) -> Option<bool> {
+        let tid = self.tid.load(Ordering::SeqCst);
+        let stat = std::fs::read_to_string(format!("/proc/self/task/{tid}/stat")).ok()?;
+        let rest = &stat[stat.rfind(')')? + 1..];
+        Some(rest.trim_start().starts_with('S'))
+    }
+    /// true = the lock is held by another thread
+    fn locked(&self, req: u64) -> bool {
+        let start = Instant::now();
+        loop {
+            if self.done.load(Ordering::SeqCst) == req {
+                return false;
+            }
+            if self.entered.load(Ordering::SeqCst) == req {
+                match self.sleeping() {
+                    Some(true) => {
+                        // twice, to be sure
+                        std::thread::sleep(Duration::from_micros(100));
+                        if self.done.load(Ordering::SeqCst) == req {
+                            return false;
+                        }
+                        if self.sleeping() == Some(true) && self.done.load(Ordering::SeqCst) != req {
+                            return true;
+                        }
+                    }
+                    Some(false) => {}
+                    None => {
+                        // no /proc: fall back to a generous time-out
+                        if start.elapsed() > Duration::from_millis(400) {
+                            return true;
+                        }
+                    }
+                }
+            }
+            if start.elapsed() > Duration::from_secs(5) {
+                return true;
+            }
+            std::thread::sleep(Duration::from_micros(30));
+        }
+    }
+    fn stop(&self) {
+        self.m.lock().unwrap().1 = true;
+        self.cv.notify_all();
+    }
+}
+
 #[derive(Clone, Copy, Debug, PartialEq)]
 enum Cmd {
     Acquire { long: bool },
@@ -184,6 +352,10 @@ enum Cmd {
     Use,
     Refresh,
     ResetAvail,
+    Clear,
+    Bump,
+    SetDiscUp,
+    Give(i8),
     Exit,
 }
 
@@ -231,6 +403,24 @@ fn worker<T: Pooled>(i: usize, ctl: Arc<Ctl>, pool: &'static ResourcePool<T>, rx
             }
             Cmd::Refresh => refresh(pool, &ctl, i),
             Cmd::ResetAvail => pool.reset_available_resources().unwrap(),
+            Cmd::Clear => pool.clear(),
+            Cmd::Bump => {
+                let g = pool.clear_and_increment_discriminant().unwrap();
+                ctl.m.lock().unwrap()[i].drained = Some(g);
+            }
+            Cmd::SetDiscUp => {
+                let d = pool.discriminant().unwrap() + 1;
+                ctl.m.lock().unwrap()[i].param = Some(d);
+                pool.set_discriminant(d).unwrap();
+            }
+            Cmd::Give(delta) => {
+                // a resource built for generation g, given back tagged g (g = current, older, newer)
+                let d = pool.discriminant().unwrap();
+                let g = if delta < 0 { d.saturating_sub(1) } else { d + delta as u64 };
+                ctl.m.lock().unwrap()[i].param = Some(g);
+                let id = ctl.next_id.fetch_add(1, Ordering::SeqCst);
+                pool.give_back_resource(T::make(id, g), g).unwrap();
+            }
         }
         let mut g = ctl.m.lock().unwrap();
         g[i].st = St::Idle;
@@ -252,6 +442,10 @@ enum CI {
     AcquireShort, // acquire_resource with a short time-out (the harness lets it expire when empty)
     Refresh,
     Reset,
+    Clear,     // clear()
+    Bump,      // clear_and_increment_discriminant() alone
+    SetDiscUp, // set_discriminant(current + 1)
+    Give(i8),  // give_back_resource(new resource built for g, g), g = current - 1 / current / current + 1
 }
 /// What an idle thread that holds an item does when stepped.
 #[derive(Clone, Copy, Debug, PartialEq)]
@@ -279,7 +473,7 @@ struct Input {
 /// One executed event, as the model sees it.
 #[derive(Clone, Debug)]
 enum Exec {
-    Step { t: usize, ci: CI, ch: CH, wake: usize },
+    Step { t: usize, ci: CI, arg: u64, ch: CH, wake: usize },
     Timeout { t: usize },
 }
 
@@ -289,13 +483,19 @@ struct Snap {
     outcome: Outcome,
     drained: Option<u64>,
     others_busy: bool,
+    cb: Option<(u8, u64)>,
+    param: Option<u64>,
 }
+
+/// (0 reset / 1 drop, resource id, queue lock held, discriminant lock held)
+type Cb = (u8, u64, bool, bool);
 
 struct StepObs {
     count: Option<usize>,
     disc: u64,
     status: u64,
     outcome: Outcome,
+    cbs: Vec<Cb>,
 }
 
 struct RunResult {
@@ -306,6 +506,7 @@ struct RunResult {
     handouts: usize,
     refreshes: usize,
     overlap: bool,
+    windows: usize, // events of a thread while another thread was stopped in a callback with no lock held
 }
 
 fn status_code(w: &W) -> u64 {
@@ -313,6 +514,10 @@ fn status_code(w: &W) -> u64 {
         (St::Idle, false) => 0,
         (St::Idle, true) => 1,
         (St::Parked, _) => 2,
+        (St::ParkedCb, _) => match w.cb {
+            Some((0, _)) => 5,
+            _ => 6,
+        },
         (St::Waiting, _) => 3,
         (St::Running, _) => 9,
     }
@@ -333,13 +538,17 @@ fn wait_until<F: Fn(&Vec<W>) -> bool>(ctl: &Ctl, limit: Duration, f: F) -> bool 
     }
 }
 
-fn run_impl<T: Pooled>(inp: &Input) -> RunResult {
+fn run_impl<U: Pooled>(inp: &Input) -> RunResult {
+    run_hooked::<Hooked<U>>(inp)
+}
+
+fn run_hooked<T: Pooled>(inp: &Input) -> RunResult {
     let init: Vec<T> = (0..inp.init).map(|i| T::make(i as u64 + 1, 0)).collect();
     let pool: &'static ResourcePool<T> = Box::leak(Box::new(ResourcePool::new(inp.size, init)));
     let ctl = Arc::new(Ctl {
         m: Mutex::new(
             (0..inp.threads)
-                .map(|_| W { st: St::Idle, grant: false, pushed: false, holding: false, outcome: Outcome::None, drained: None })
+                .map(|_| W { st: St::Idle, grant: false, pushed: false, holding: false, outcome: Outcome::None, drained: None, cb: None, param: None })
                 .collect(),
         ),
         cv: Condvar::new(),
@@ -355,11 +564,26 @@ fn run_impl<T: Pooled>(inp: &Input) -> RunResult {
         joins.push(std::thread::spawn(move || worker::<T>(i, c, pool, rx)));
     }
 
-    let mut res = RunResult { log: vec![], obs: vec![], final_queue: vec![], violation: None, handouts: 0, refreshes: 0, overlap: false };
+    // lock probes
+    let probe_q = Probe::new();
+    let probe_d = Probe::new();
+    let pj = {
+        let (pq, pd) = (probe_q.clone(), probe_d.clone());
+        [
+            std::thread::spawn(move || pq.serve(|| { let _ = pool.count(); })),
+            std::thread::spawn(move || pd.serve(|| { let _ = pool.discriminant(); })),
+        ]
+    };
+    let locks_held = || -> (bool, bool) {
+        let (rq, rd) = (probe_q.request(), probe_d.request());
+        (probe_q.locked(rq), probe_d.locked(rd))
+    };
+
+    let mut res = RunResult { log: vec![], obs: vec![], final_queue: vec![], violation: None, handouts: 0, refreshes: 0, overlap: false, windows: 0 };
     let mut last_drained: u64 = 0;
 
     // judge + record one executed event from a snapshot of the stepped thread
-    let record = |res: &mut RunResult, ex: Exec, t: usize, snap: Snap, cap_ref: Option<usize>, with_count: bool, last_drained: &mut u64| {
+    let record = |res: &mut RunResult, ex: Exec, t: usize, snap: Snap, cbs: Vec<Cb>, cap_ref: Option<usize>, with_count: bool, last_drained: &mut u64| {
         if let Some(d) = snap.drained {
             if d > *last_drained {
                 *last_drained = d;
@@ -389,7 +613,7 @@ fn run_impl<T: Pooled>(inp: &Input) -> RunResult {
             }
         }
         res.log.push(ex);
-        res.obs.push(StepObs { count: if with_count { Some(count) } else { None }, disc, status: snap.status, outcome: snap.outcome });
+        res.obs.push(StepObs { count: if with_count { Some(count) } else { None }, disc, status: snap.status, outcome: snap.outcome, cbs });
     };
     // wait until thread t is not running any more and take a snapshot under the same lock
     let settle_snap = |t: usize, want_idle: bool| -> Option<Snap> {
@@ -400,8 +624,9 @@ fn run_impl<T: Pooled>(inp: &Input) -> RunResult {
             if done {
                 let outcome = std::mem::replace(&mut g[t].outcome, Outcome::None);
                 let drained = g[t].drained.take();
-                let others_busy = (0..g.len()).any(|w| w != t && (g[w].holding || g[w].st == St::Parked));
-                return Some(Snap { st: g[t].st, status: status_code(&g[t]), outcome, drained, others_busy });
+                let others_busy = (0..g.len()).any(|w| w != t && (g[w].holding || g[w].st == St::Parked || g[w].st == St::ParkedCb));
+                let param = g[t].param.take();
+                return Some(Snap { st: g[t].st, status: status_code(&g[t]), outcome, drained, others_busy, cb: g[t].cb, param });
             }
             let now = Instant::now();
             if now >= deadline {
@@ -412,28 +637,35 @@ fn run_impl<T: Pooled>(inp: &Input) -> RunResult {
     };
     let idle_snap = |t: usize| -> Snap {
         let g = ctl.m.lock().unwrap();
-        Snap { st: g[t].st, status: status_code(&g[t]), outcome: Outcome::None, drained: None, others_busy: false }
+        Snap { st: g[t].st, status: status_code(&g[t]), outcome: Outcome::None, drained: None, others_busy: false, cb: None, param: None }
     };
 
     'outer: for ev in &inp.sched {
         let t = ev.t;
-        let (st, holding) = {
+        // a thread that was woken by a push the controller did not see (no `pushed` label: only
+        // on changed code) may still be running: let it settle
+        if !wait_until(&ctl, Duration::from_secs(20), |g| g[t].st != St::Running) {
+            res.violation = Some(format!("event {}: thread {} is still running although the controller did not step it", res.log.len(), t));
+            break 'outer;
+        }
+        let (st, holding, in_window) = {
             let g = ctl.m.lock().unwrap();
-            (g[t].st, g[t].holding)
+            (g[t].st, g[t].holding, (0..g.len()).any(|w| w != t && g[w].st == St::ParkedCb))
         };
         let count_before = pool.count().unwrap();
         let waiting_before: Vec<usize> = {
             let g = ctl.m.lock().unwrap();
             (0..inp.threads).filter(|&w| w != t && g[w].st == St::Waiting).collect()
         };
+        let step = |arg: u64, wake: usize| Exec::Step { t, ci: ev.ci, arg, ch: ev.ch, wake };
         let mut short = false;
         match st {
             St::Waiting => {
                 // blocked in the condvar: the scheduler cannot advance it
-                record(&mut res, Exec::Step { t, ci: ev.ci, ch: ev.ch, wake: 0 }, t, idle_snap(t), Some(count_before), true, &mut last_drained);
+                record(&mut res, step(0, 0), t, idle_snap(t), vec![], Some(count_before), true, &mut last_drained);
                 continue;
             }
-            St::Parked => {
+            St::Parked | St::ParkedCb => {
                 let mut g = ctl.m.lock().unwrap();
                 g[t].st = St::Running;
                 g[t].grant = true;
@@ -457,11 +689,15 @@ fn run_impl<T: Pooled>(inp: &Input) -> RunResult {
                         }
                         CI::Refresh => Some(Cmd::Refresh),
                         CI::Reset => Some(Cmd::ResetAvail),
+                        CI::Clear => Some(Cmd::Clear),
+                        CI::Bump => Some(Cmd::Bump),
+                        CI::SetDiscUp => Some(Cmd::SetDiscUp),
+                        CI::Give(d) => Some(Cmd::Give(d)),
                     }
                 };
                 match cmd {
                     None => {
-                        record(&mut res, Exec::Step { t, ci: ev.ci, ch: ev.ch, wake: 0 }, t, idle_snap(t), Some(count_before), true, &mut last_drained);
+                        record(&mut res, step(0, 0), t, idle_snap(t), vec![], Some(count_before), true, &mut last_drained);
                         continue;
                     }
                     Some(c) => {
@@ -470,12 +706,43 @@ fn run_impl<T: Pooled>(inp: &Input) -> RunResult {
                     }
                 }
             }
-            St::Running => unreachable!("worker running between controller steps"),
+            St::Running => {
+                res.violation = Some(format!("event {}: thread {} started running without being stepped", res.log.len(), t));
+                break 'outer;
+            }
         }
-        // let t run to its next yield point, the end of its operation, or the condvar
-        let Some(snap) = settle_snap(t, false) else {
-            res.violation = Some(format!("event {}: thread {} did not reach a yield point (deadlock?)", res.log.len(), t));
-            break 'outer;
+        if in_window {
+            res.windows += 1;
+        }
+        // let t run to its next yield point, the end of its operation, the condvar, or a callback
+        // with no lock held; a callback under a pool lock is part of the critical section: it is
+        // recorded with the locks seen and the thread is released at once
+        let mut cbs: Vec<Cb> = vec![];
+        let mut arg: u64 = 0;
+        let mut drained_acc: Option<u64> = None;
+        let snap = loop {
+            let Some(mut snap) = settle_snap(t, false) else {
+                res.violation = Some(format!("event {}: thread {} did not reach a yield point (deadlock?)", res.log.len(), t));
+                break 'outer;
+            };
+            if let Some(p) = snap.param {
+                arg = p;
+            }
+            drained_acc = drained_acc.or(snap.drained);
+            if snap.st == St::ParkedCb {
+                let (kind, id) = snap.cb.unwrap_or((9, 0));
+                let (ql, dl) = locks_held();
+                cbs.push((kind, id, ql, dl));
+                if (ql || dl) && cbs.len() < 64 {
+                    let mut g = ctl.m.lock().unwrap();
+                    g[t].st = St::Running;
+                    g[t].grant = true;
+                    ctl.cv.notify_all();
+                    continue;
+                }
+            }
+            snap.drained = drained_acc;
+            break snap;
         };
         if snap.st == St::Waiting {
             // the label is emitted under the queue lock just before the wait: once the lock can be
@@ -497,7 +764,7 @@ fn run_impl<T: Pooled>(inp: &Input) -> RunResult {
                         res.log.len(), t, waiting_before
                     ));
                 }
-                record(&mut res, Exec::Step { t, ci: ev.ci, ch: ev.ch, wake: 0 }, t, snap, None, true, &mut last_drained);
+                record(&mut res, step(arg, 0), t, snap, cbs, None, true, &mut last_drained);
                 break 'outer;
             }
         }
@@ -505,20 +772,20 @@ fn run_impl<T: Pooled>(inp: &Input) -> RunResult {
         if short && snap.st == St::Idle && snap.outcome == Outcome::Timeout {
             // the short wait expired before the controller looked: the thread did block (it reports
             // a time-out), so the two events are recorded from what is known of them
-            let blocked = Snap { st: St::Waiting, status: 3, outcome: Outcome::None, drained: None, others_busy: false };
-            record(&mut res, Exec::Step { t, ci: ev.ci, ch: ev.ch, wake: 0 }, t, blocked, Some(count_before), true, &mut last_drained);
-            record(&mut res, Exec::Timeout { t }, t, snap, Some(count_before), true, &mut last_drained);
+            let blocked = Snap { st: St::Waiting, status: 3, outcome: Outcome::None, drained: None, others_busy: false, cb: None, param: None };
+            record(&mut res, step(arg, 0), t, blocked, vec![], Some(count_before), true, &mut last_drained);
+            record(&mut res, Exec::Timeout { t }, t, snap, vec![], Some(count_before), true, &mut last_drained);
             continue;
         }
         match woken {
             Some(w) => {
                 // the push and the woken thread's pop are observed together: the count is reported
                 // with the second event only (Model.run does the same while a wake-up is in flight)
-                record(&mut res, Exec::Step { t, ci: ev.ci, ch: ev.ch, wake: w }, t, snap, None, false, &mut last_drained);
+                record(&mut res, step(arg, w), t, snap, cbs, None, false, &mut last_drained);
                 let sw = settle_snap(w, true).unwrap();
-                record(&mut res, Exec::Step { t: w, ci: CI::None, ch: CH::None, wake: 0 }, w, sw, Some(count_before), true, &mut last_drained);
+                record(&mut res, Exec::Step { t: w, ci: CI::None, arg: 0, ch: CH::None, wake: 0 }, w, sw, vec![], Some(count_before), true, &mut last_drained);
             }
-            None => record(&mut res, Exec::Step { t, ci: ev.ci, ch: ev.ch, wake: 0 }, t, snap, Some(count_before), true, &mut last_drained),
+            None => record(&mut res, step(arg, 0), t, snap, cbs, Some(count_before), true, &mut last_drained),
         }
         if waiting_short {
             // the short time-out expires with nothing else running
@@ -526,7 +793,7 @@ fn run_impl<T: Pooled>(inp: &Input) -> RunResult {
                 res.violation = Some(format!("event {}: acquire_resource did not time out", res.log.len()));
                 break 'outer;
             };
-            record(&mut res, Exec::Timeout { t }, t, s2, Some(count_before), true, &mut last_drained);
+            record(&mut res, Exec::Timeout { t }, t, s2, vec![], Some(count_before), true, &mut last_drained);
         }
     }
 
@@ -542,6 +809,14 @@ fn run_impl<T: Pooled>(inp: &Input) -> RunResult {
                 }
                 Err(_) => break,
             }
+        }
+    }
+    for (id, built_for) in &res.final_queue {
+        if *built_for < last_drained && res.violation.is_none() {
+            res.violation = Some(format!(
+                "end of the schedule: the pool still holds (and serves) resource #{} built for generation {} although it has been drained for generation {}",
+                id, built_for, last_drained
+            ));
         }
     }
     // un-modelled clean-up: everybody runs freely, blocked acquirers are released
@@ -565,6 +840,11 @@ fn run_impl<T: Pooled>(inp: &Input) -> RunResult {
     for tx in &txs {
         let _ = tx.send(Cmd::Exit);
     }
+    probe_q.stop();
+    probe_d.stop();
+    for j in pj {
+        let _ = j.join();
+    }
     // a worker that is still blocked (only after a wake-up failure) is left to time out on its own
     let idle: Vec<bool> = ctl.m.lock().unwrap().iter().map(|w| w.st == St::Idle).collect();
     for (k, j) in joins.into_iter().enumerate() {
@@ -577,12 +857,16 @@ fn run_impl<T: Pooled>(inp: &Input) -> RunResult {
 
 // ---------------------------------------------------------------------------------- Coq printing
 
-fn ci_coq(c: CI) -> &'static str {
+fn ci_coq(c: CI, arg: u64) -> String {
     match c {
-        CI::None => "CiNone",
-        CI::Acquire | CI::AcquireShort => "CiAcquire",
-        CI::Refresh => "CiRefresh",
-        CI::Reset => "CiReset",
+        CI::None => "CiNone".into(),
+        CI::Acquire | CI::AcquireShort => "CiAcquire".into(),
+        CI::Refresh => "CiRefresh".into(),
+        CI::Reset => "CiReset".into(),
+        CI::Clear => "CiClear".into(),
+        CI::Bump => "CiBump".into(),
+        CI::SetDiscUp => format!("(CiSetDisc {})", coq::n(arg)),
+        CI::Give(_) => format!("(CiGive {})", coq::n(arg)),
     }
 }
 fn ch_coq(c: CH) -> &'static str {
@@ -595,7 +879,7 @@ fn ch_coq(c: CH) -> &'static str {
 }
 fn exec_coq(e: &Exec) -> String {
     match e {
-        Exec::Step { t, ci, ch, wake } => format!("Step {} {} {} {}", t, ci_coq(*ci), ch_coq(*ch), wake),
+        Exec::Step { t, ci, arg, ch, wake } => format!("Step {} {} {} {}", t, ci_coq(*ci, *arg), ch_coq(*ch), wake),
         Exec::Timeout { t } => format!("Timeout {}", t),
     }
 }
@@ -610,7 +894,10 @@ fn obs_of(r: &RunResult) -> String {
     let steps: Vec<String> = r
         .obs
         .iter()
-        .map(|s| coq::ol(&[coq::oopt(s.count.map(|c| coq::on(c as u64))), coq::on(s.disc), coq::on(s.status), outcome_obs(&s.outcome)]))
+        .map(|s| {
+            let cbs: Vec<String> = s.cbs.iter().map(|(k, id, ql, dl)| coq::ol(&[coq::on(*k as u64), coq::on(*id), coq::ob(*ql), coq::ob(*dl)])).collect();
+            coq::ol(&[coq::oopt(s.count.map(|c| coq::on(c as u64))), coq::on(s.disc), coq::on(s.status), outcome_obs(&s.outcome), coq::ol(&cbs)])
+        })
         .collect();
     let fq: Vec<String> = r.final_queue.iter().map(|(i, g)| coq::ol(&[coq::on(*i), coq::on(*g)])).collect();
     coq::ol(&[coq::ol(&steps), coq::ol(&fq)])
@@ -648,7 +935,7 @@ fn witnesses() -> Vec<(&'static str, Input)> {
     s.push(ev(3, CI::Acquire, CH::None));
     v.push(("witness-item", Input { size: 2, init: 2, threads: 4, sched: s }));
     // (b) acquire between set_discriminant and clear
-    let mut s = vec![ev(1, CI::Refresh, CH::None), n(1), ev(0, CI::Acquire, CH::None)];
+    let mut s = vec![ev(1, CI::Refresh, CH::None), n(1), n(1), ev(0, CI::Acquire, CH::None)];
     s.extend(std::iter::repeat(n(1)).take(12));
     s.push(ev(2, CI::Acquire, CH::None));
     s.push(ev(0, CI::None, CH::Drop));
@@ -668,7 +955,10 @@ fn witnesses() -> Vec<(&'static str, Input)> {
     v
 }
 
-fn random_input(rng: &mut Rng, class: u64) -> Input {
+/// `legacy`: the walk also uses the public entry points the provers do not call (clear,
+/// clear_and_increment_discriminant alone, set_discriminant, give_back_resource of a resource
+/// built for the current / previous / next generation).
+fn random_input(rng: &mut Rng, class: u64, legacy: bool) -> Input {
     let (threads, size, max_len) = match class {
         0 => (rng.range(2, 3), rng.range(1, 2), 20),
         1 => (rng.range(2, 4), rng.range(1, 3), 40),
@@ -689,12 +979,18 @@ fn random_input(rng: &mut Rng, class: u64) -> Input {
         if rng.chance(1, stick + 1) {
             cur = rng.below(threads as u64) as usize;
         }
-        let ci = match rng.below(12) {
+        let ci = match rng.below(if legacy { 18 } else { 12 }) {
             0..=4 => CI::Acquire,
             5 | 6 => CI::AcquireShort,
             7..=9 => CI::Refresh,
             10 => CI::Reset,
-            _ => CI::None,
+            11 => CI::None,
+            12 => CI::Clear,
+            13 => CI::Bump,
+            14 => CI::SetDiscUp,
+            15 => CI::Give(0),
+            16 => CI::Give(-1),
+            _ => CI::Give(1),
         };
         let ch = match rng.below(8) {
             0..=2 => CH::Drop,
@@ -705,6 +1001,99 @@ fn random_input(rng: &mut Rng, class: u64) -> Input {
         sched.push(ev(cur, ci, ch));
     }
     Input { size, init, threads, sched }
+}
+
+/// The operations of the systematic family.
+#[derive(Clone, Copy, Debug, PartialEq)]
+enum Op {
+    Acquire,
+    GiveFresh,
+    GiveStale,
+    GiveFuture,
+    GiveItem,
+    DropItem,
+    Clear,
+    Bump,
+    ResetAvail,
+    SetDisc,
+    Refresh,
+}
+const OPS: [Op; 11] = [Op::Acquire, Op::GiveFresh, Op::GiveStale, Op::GiveFuture, Op::GiveItem, Op::DropItem, Op::Clear, Op::Bump, Op::ResetAvail, Op::SetDisc, Op::Refresh];
+impl Op {
+    fn needs_item(self) -> bool {
+        matches!(self, Op::GiveItem | Op::DropItem)
+    }
+    fn start(self, t: usize) -> Ev {
+        match self {
+            Op::Acquire => ev(t, CI::Acquire, CH::None),
+            Op::GiveFresh => ev(t, CI::Give(0), CH::None),
+            Op::GiveStale => ev(t, CI::Give(-1), CH::None),
+            Op::GiveFuture => ev(t, CI::Give(1), CH::None),
+            Op::GiveItem => ev(t, CI::None, CH::GiveItem),
+            Op::DropItem => ev(t, CI::None, CH::Drop),
+            Op::Clear => ev(t, CI::Clear, CH::None),
+            Op::Bump => ev(t, CI::Bump, CH::None),
+            Op::ResetAvail => ev(t, CI::Reset, CH::None),
+            Op::SetDisc => ev(t, CI::SetDiscUp, CH::None),
+            Op::Refresh => ev(t, CI::Refresh, CH::None),
+        }
+    }
+    /// how many steps the operation can take on today's code (a little more is tried: a window
+    /// that does not exist today shows up as one more stop)
+    fn steps(self, size: usize) -> usize {
+        match self {
+            Op::Refresh => 1 + 3 * size,
+            Op::GiveFresh | Op::GiveStale | Op::GiveFuture | Op::GiveItem | Op::DropItem => 4,
+            _ => 1,
+        }
+    }
+}
+
+/// Systematic family: operation Y of thread 1 runs to completion inside operation X of thread 0,
+/// started after X's k-th stop (yield point or callback with no lock held), for every X, Y and k.
+/// Before: thread 3 takes a generation-0 item, thread 2 refreshes the pool completely (generation
+/// 1), threads 0 / 1 take an item of generation 1 if their operation needs one.  After: X
+/// completes, thread 3 returns its generation-0 item, thread 2 cycles through the pool.
+fn window_input(size: usize, x: Op, k: usize, y: Op) -> Input {
+    let mut s = vec![ev(3, CI::Acquire, CH::None), ev(2, CI::Refresh, CH::None)];
+    s.extend(std::iter::repeat(n(2)).take(3 * size + 1));
+    if x.needs_item() {
+        s.push(ev(0, CI::Acquire, CH::None));
+    }
+    if y.needs_item() {
+        s.push(ev(1, CI::Acquire, CH::None));
+    }
+    s.push(x.start(0));
+    s.extend(std::iter::repeat(n(0)).take(k));
+    s.push(y.start(1));
+    s.extend(std::iter::repeat(n(1)).take(y.steps(size) + 2));
+    s.extend(std::iter::repeat(n(0)).take(x.steps(size) + size + 3));
+    s.extend(std::iter::repeat(n(1)).take(2)); // Y, if it was blocked behind X
+    s.push(ev(3, CI::None, CH::Drop));
+    s.extend(std::iter::repeat(n(3)).take(4));
+    for _ in 0..size + 1 {
+        s.push(ev(2, CI::AcquireShort, CH::None));
+        s.push(ev(2, CI::None, CH::Drop));
+        s.extend(std::iter::repeat(n(2)).take(4));
+    }
+    Input { size, init: size, threads: 4, sched: s }
+}
+
+fn window_inputs(sizes: &[usize]) -> Vec<(String, Input)> {
+    let mut v = vec![];
+    for &size in sizes {
+        for x in OPS {
+            // one more stop per queued resource is tried for the one-step operations that drain or
+            // visit the queue (a drop / reset moved out of the lock stops there)
+            let kmax = x.steps(size) + size;
+            for k in 0..=kmax {
+                for y in OPS {
+                    v.push((format!("window-{:?}-in-{:?}", y, x).to_lowercase(), window_input(size, x, k, y)));
+                }
+            }
+        }
+    }
+    v
 }
 
 fn model_term(inp: &Input, log: &[Exec]) -> String {
@@ -837,16 +1226,26 @@ fn main() {
         inputs.push((k.to_string(), i.clone(), false));
         inputs.push((format!("{k}-mkmap"), i, true));
     }
-    let n_rand = if args.thorough { 12_000 } else { 500 };
+    let sizes: &[usize] = if args.thorough { &[1, 2, 3, 4] } else { &[2] };
+    for (j, (kind, inp)) in window_inputs(sizes).into_iter().enumerate() {
+        if j % 7 == 6 {
+            inputs.push((format!("{kind}-mkmap"), inp, true));
+        } else {
+            inputs.push((kind, inp, false));
+        }
+    }
+    let n_rand = if args.thorough { 9_000 } else { 500 };
     for k in 0..n_rand {
         let mut r = rng.fork();
         let class = k % 3;
+        let legacy = k % 4 == 3;
         let kind = ["random-small", "random-medium", "random-wide"][class as usize];
-        let inp = random_input(&mut r, class);
+        let kind = if legacy { format!("{kind}-legacy") } else { kind.to_string() };
+        let inp = random_input(&mut r, class, legacy);
         if k % 5 == 4 {
             inputs.push((format!("{kind}-mkmap"), inp, true));
         } else {
-            inputs.push((kind.to_string(), inp, false));
+            inputs.push((kind, inp, false));
         }
     }
 
@@ -887,7 +1286,7 @@ fn main() {
             holds: Some(r.violation.is_none()),
             why: r.violation.clone(),
             known: None,
-            nontrivial: r.overlap && r.handouts > 0,
+            nontrivial: (r.overlap || r.windows > 0) && r.handouts > 0,
             key,
         });
     }
